@@ -548,10 +548,45 @@ def correspondence(ctx):
     order = [('ConditionalDiagonalNormal', 'sample'), ('MoG', 'logprob'), ('ConditionalIndependentBernoulli', 'sample'), ('kde', 'kde'),
              ('MoG', 'sample'), ('Lotka', 'logprob'), ('error', 'RuntimeError')]
     ctx.samples = [picked[k] for k in order if k in picked][:6] or list(picked.values())[:6]
+    update_history(ctx)
     if not ctx.quick():
         # thorough tier: the property's own oracle (summation, quadrature, seeded KS / moment tests) always runs
         search(ctx)
         ctx.extra['oracle_run_in_thorough_tier'] = True
+
+
+def update_history(ctx, report=None):
+    """ONE distribution object, evaluation mode, no autograd: log_prob, then its parameters are changed without any mode switch
+    (in place / load_state_dict), then log_prob again — the second value must be the closed-form density of the NEW parameters
+    (nothing derived from the parameters may be remembered), and mean() must follow"""
+    from nflows.distributions import normal
+    gen = torch.Generator().manual_seed(ctx.seed + 5151)
+    with f64_default():
+        for D in (1, 3):
+            for how in ('inplace', 'load'):
+                d = normal.DiagonalNormal([D]); d.eval()
+                x = torch.randn(4, D, generator=gen)
+                with torch.no_grad():
+                    d.mean_.copy_(torch.randn(1, D, generator=gen)); d.log_std_.copy_(0.3 * torch.randn(1, D, generator=gen))
+                    d.log_prob(x); d.mean()
+                    new_m = torch.randn(1, D, generator=gen); new_s = 1.0 + 0.3 * torch.randn(1, D, generator=gen)
+                    if how == 'inplace':
+                        d.mean_.copy_(new_m); d.log_std_.copy_(new_s)
+                    else:
+                        d.load_state_dict({'mean_': new_m.clone(), 'log_std_': new_s.clone()}, strict=False)
+                    lp = d.log_prob(x)
+                    mu = d.mean()
+                want = (-0.5 * ((x - new_m) / torch.exp(new_s)) ** 2 - new_s - 0.5 * math.log(2 * math.pi)).sum(1)
+                ok = bool(torch.allclose(lp, want, rtol=1e-10, atol=1e-10)) and torch.is_tensor(mu) and bool(torch.allclose(mu.reshape(-1), new_m.reshape(-1)))
+                case = {'class': 'DiagonalNormal', 'event_shape': [D], 'history': ['eval', 'no_grad', 'log_prob', 'parameters changed (%s)' % how, 'log_prob']}
+                if report is None:
+                    ctx.case(key=('update-history', D, how), branch='update-history/DiagonalNormal', nontrivial=True)
+                    if not ok:
+                        ctx.disagree('c05.logprob/DiagonalNormal', case, lp.tolist(), want.tolist(), 'log_prob after a parameter change is not the density of the new parameters')
+                elif not ok:
+                    report('DiagonalNormal%s: log_prob after a parameter change (%s, evaluation mode, no autograd) is not the density of the new parameters: '
+                           'exp(log_prob) integrates to %.4g' % ([D], how, float(torch.exp(lp - want).mean())), case,
+                           {'class': 'DiagonalNormal', 'event_shape': [D], 'symptom': 'stale-after-update'})
 
 
 # ------------------------------------------------------------------------------------------------------------------
@@ -1111,6 +1146,7 @@ def search(ctx):
             except Exception as e:  # an oracle that cannot even run is reported, never swallowed
                 ctx.notes.append('oracle %s raised %r' % (part.__name__, e))
                 ctx.fail('oracle %s could not run: %r' % (part.__name__, e), {'oracle': part.__name__}, match={'class': part.__name__, 'event_shape': None, 'symptom': 'oracle-raised'})
+        update_history(ctx, report=lambda what, case, match: _fail(ctx, what, match['class'], match['event_shape'], match['symptom'], case))
         try:
             oracle_sampling(ctx, 12345 + ctx.seed)
         except Exception as e:
